@@ -159,6 +159,13 @@ def _convtype(e):
     return None
 
 
+def _nilout(e):
+    if e.get('op') == 'fn' and e.get('outcome') == 'value':
+        e['outcome'] = 'nil'
+        return e
+    return None
+
+
 PROPS = {
     'C11': dict(
         tv=dict(module='ScannerTrace', cfg='ScannerTrace.cfg'),
@@ -270,6 +277,12 @@ PROPS = {
         mc=[],
         corrupt=[('change the result type', _convtype)],
         exhaustive_part=True,
+    ),
+    'C08': dict(
+        tv=dict(module='FunctionsTrace', cfg='FunctionsTrace.cfg'),
+        mc=[],
+        corrupt=[('turn a value outcome into nil', _nilout)],
+        exhaustive_part=False,
     ),
 }
 
@@ -469,5 +482,19 @@ DOC = {
         note='Trusted: TLC, Json module, recorder (flags |v| <= 2^53 and "has no fraction" are facts about the input computed by the recorder). '
              'Left open: the text produced for Float/Double/DateTime/TimeSpan -> String, conversions of unparsable strings.',
         technique='TLA+ conversion matrix and formulas (VariantOps/VariantConvTrace) + TLC trace validation of value x target x manager and of two-step chains',
+    ),
+    'C08': dict(
+        level='FunctionsTrace.tla contains the reference semantics of the 37 default functions on the value model of VariantOps: arity sets, '
+              'result types, Min/Max/Sum as folds of the specified comparison/addition, If/Choose selection by argument identity, Abs, '
+              'Ceil/Floor/Round/Trunc on eighths, Contains, Empty, Array, TimeSpan and Date construction (calendar components read back), '
+              'DayOfWeek by Zeller\'s congruence, constants, clock functions within the call interval, random numbers in [0,1), and for the '
+              'IEEE functions the result type, the conversion of the argument and exact values at anchor points. Every registered name is '
+              'called in four letter cases with every argument count 0..8, targeted and boundary arguments, under both managers, directly '
+              'and through an expression (results must agree); a nil result without error, a wrong arity that is not an error and an '
+              'inapplicable argument that is not an error are rejections.',
+        note='Trusted: TLC, Json module, recorder. Accuracy of the transcendental functions away from the anchor points is outside the model '
+             '(only direct = via-expression is checked there); Sqr is checked as the alias of Sqrt it is registered as; Choose(0, ...), '
+             'Empty("") and the seventh argument of Date are left open.',
+        technique='TLA+ reference semantics of the function library (FunctionsTrace) + TLC trace validation of name x spelling x argument-list x manager calls',
     ),
 }
